@@ -100,10 +100,19 @@ theorem SInv.add {cfg : Cfg} (G : Good cfg) {s : State n} (h : SInv cfg s) (tx :
       · simp only [hpay, if_true]
         exact ⟨h.rollback G, fun _ => rfl, fun e => by cases e⟩
       · simp only [hpay, Bool.false_eq_true, if_false]
+        by_cases hsp : (opt.payload.isSome && opt.savePayloadEventFails) = true
+        · simp only [hsp, if_true]
+          exact ⟨h.rollback G, fun _ => rfl, fun e => by cases e⟩
+        simp only [hsp, Bool.false_eq_true, if_false]
         rcases graphAdd_spec h.g hp' hv with hr | ⟨d, hd, hg, htx, hx, hi, hlc, hle, hempty⟩
         · rw [hr]
           exact ⟨h.rollback G, fun _ => rfl, fun e => by cases e⟩
         · rw [hd]
+          simp only []
+          by_cases hst : opt.saveTxEventFails = true
+          · simp only [hst, if_true]
+            exact ⟨h.rollback G, fun _ => rfl, fun e => by cases e⟩
+          simp only [hst, Bool.false_eq_true, if_false]
           have c := h.commit G hg htx hx hi hlc hle hempty
           by_cases hf : opt.commitFails = true
           · simp only [hf, if_true]
